@@ -52,6 +52,7 @@ type case36 struct {
 	byW      map[int64]*peerPkt
 	muxPkts  []muxPkt
 	marks    map[string]int64
+	want     []wanted
 	selfExit bool
 	fatal    *peerPkt
 	cause    int64 // log position from which errors are explained by the end of the connection
@@ -196,7 +197,9 @@ func (cs *case36) judge() {
 		m.Count("connections_alive_until_harness_close", 1)
 	}
 
-	// --- reply matching
+	// --- reply matching. Calls that returned a reply are collected per kind
+	// and matched to peer packets by a maximum bipartite matching (a reply may
+	// be admissible for two overlapping calls; each reply serves at most one).
 	for _, c := range app.calls {
 		if !c.Returned {
 			continue // still blocked: judged by the shutdown analysis
@@ -211,6 +214,7 @@ func (cs *case36) judge() {
 			cs.judgeOpen(c)
 		}
 	}
+	cs.matchAll()
 
 	// --- second open responses: rejected (connection error) or without effect
 	for _, d := range peer.dupConfirms {
@@ -302,27 +306,9 @@ func (cs *case36) judgeGlobal(c *callRec) {
 	if c.OK {
 		typ = MsgRequestSuccess
 	}
-	var same *peerPkt
-	for _, q := range cs.peerPkts {
-		if q.m.Type != typ || !bytes.Equal(q.m.Data, c.Data) {
-			continue
-		}
-		if !q.used && overlap(q, c) {
-			q.used = true
-			cs.m.Count("global_replies_matched", 1)
-			if q.wseq < cs.marks["call:global:"+c.Name] {
-				cs.m.Count("replies_in_processing_when_call_started", 1)
-			}
-			return
-		}
-		same = q
-	}
-	if same != nil {
-		cs.viol("reply-delivered-to-a-call-that-was-not-waiting:global", map[string]any{"call": c.Name, "ok": c.OK, "data": string(c.Data),
-			"call_interval": []int64{c.Start, c.End}, "reply_processing_interval": []int64{same.rseq, same.procEnd}, "reply_already_consumed": same.used, "log": cs.around(c.Start)})
-	} else {
-		cs.viol("reply-never-sent-by-peer:global", map[string]any{"call": c.Name, "ok": c.OK, "data": string(c.Data)})
-	}
+	cs.want = append(cs.want, wanted{c: c, what: "global", admissible: func(q *peerPkt) bool {
+		return q.m.Type == typ && bytes.Equal(q.m.Data, c.Data) && overlap(q, c)
+	}, sameButOutside: func(q *peerPkt) bool { return q.m.Type == typ && bytes.Equal(q.m.Data, c.Data) }})
 }
 
 func (cs *case36) channelClosedBefore(tok string, ids map[uint32]bool, end int64) bool {
@@ -340,7 +326,18 @@ func (cs *case36) channelClosedBefore(tok string, ids map[uint32]bool, end int64
 func (cs *case36) judgeChanReq(c *callRec) {
 	ids := cs.localIDs(c.Chan)
 	if c.Err != nil {
-		cs.explainError(c, "channel", func() bool { return cs.channelClosedBefore(c.Chan, ids, c.End) })
+		cs.explainError(c, "channel", func() bool {
+			if cs.channelClosedBefore(c.Chan, ids, c.End) {
+				return true
+			}
+			// something that is not a connection-protocol message was addressed to the channel ("unexpected response")
+			for _, q := range cs.peerPkts {
+				if q.rseq >= 0 && q.rseq < c.End && ids[q.m.Chan] && !isConnType(q.m.Type) {
+					return true
+				}
+			}
+			return false
+		})
 		return
 	}
 	if !c.Want {
@@ -353,51 +350,28 @@ func (cs *case36) judgeChanReq(c *callRec) {
 	if c.OK {
 		typ = MsgChanSuccess
 	}
-	for _, q := range cs.peerPkts {
-		if q.m.Type == typ && q.perr == nil && ids[q.m.Chan] && !q.used && overlap(q, c) {
-			q.used = true
-			cs.m.Count("channel_replies_matched", 1)
-			return
-		}
-	}
-	cs.viol("reply-delivered-to-a-call-that-was-not-waiting:channel", map[string]any{"call": c.Name, "ok": c.OK, "channel_ids": fmt.Sprint(ids),
-		"call_interval": []int64{c.Start, c.End}, "log": cs.around(c.Start)})
+	cs.want = append(cs.want, wanted{c: c, what: "channel", ids: ids, admissible: func(q *peerPkt) bool {
+		return q.m.Type == typ && q.perr == nil && ids[q.m.Chan] && overlap(q, c)
+	}})
 }
 
 func (cs *case36) judgeOpen(c *callRec) {
 	ids := cs.localIDs(c.Name)
 	switch {
 	case c.Err == nil:
-		for _, q := range cs.peerPkts {
-			if q.m.Type == MsgChanOpenConfirm && q.perr == nil && ids[q.m.Chan] && !q.used && overlap(q, c) {
-				q.used = true
-				cs.m.Count("open_confirms_matched", 1)
-				return
-			}
-		}
-		var cand []string
-		for _, q := range cs.peerPkts {
-			if q.m.Type == MsgChanOpenConfirm {
-				cand = append(cand, fmt.Sprintf("w=%d r=%d procEnd=%d rcpt=%d used=%v perr=%v", q.wseq, q.rseq, q.procEnd, q.m.Chan, q.used, q.perr))
-			}
-		}
-		cs.viol("open-succeeded-without-a-confirmation", map[string]any{"call": c.Name, "channel_ids": fmt.Sprint(ids), "call_interval": []int64{c.Start, c.End}, "confirms": cand, "log": cs.around(c.End)})
+		cs.want = append(cs.want, wanted{c: c, what: "open-confirm", ids: ids, admissible: func(q *peerPkt) bool {
+			return q.m.Type == MsgChanOpenConfirm && q.perr == nil && ids[q.m.Chan] && overlap(q, c)
+		}})
 	case c.OpenErr != nil:
-		for _, q := range cs.peerPkts {
-			if q.m.Type == MsgChanOpenFailure && q.perr == nil && ids[q.m.Chan] && !q.used && overlap(q, c) &&
-				q.m.Reason == uint32(c.OpenErr.Reason) && q.m.Name == c.OpenErr.Message {
-				q.used = true
-				cs.m.Count("open_failures_matched", 1)
-				return
-			}
-		}
-		cs.viol("open-failure-never-sent-by-peer", map[string]any{"call": c.Name, "reason": c.OpenErr.Reason, "message": c.OpenErr.Message, "log": cs.around(c.End)})
+		cs.want = append(cs.want, wanted{c: c, what: "open-failure", ids: ids, admissible: func(q *peerPkt) bool {
+			return q.m.Type == MsgChanOpenFailure && q.perr == nil && ids[q.m.Chan] && overlap(q, c) &&
+				q.m.Reason == uint32(c.OpenErr.Reason) && q.m.Name == c.OpenErr.Message
+		}})
 	default:
 		cs.explainError(c, "open", func() bool {
 			// the peer closed the pending channel, or sent it something that is not an open response
 			for _, q := range cs.peerPkts {
-				if q.rseq >= 0 && q.rseq < c.End && ids[q.m.Chan] && len(q.m.Data) >= 0 &&
-					(q.m.Type == MsgChanClose || !isConnType(q.m.Type)) {
+				if q.rseq >= 0 && q.rseq < c.End && ids[q.m.Chan] && (q.m.Type == MsgChanClose || !isConnType(q.m.Type)) {
 					return true
 				}
 			}
@@ -553,5 +527,85 @@ func (cs *case36) judgePongs() {
 		}
 		i++
 		cs.m.Count("pongs_matched", 1)
+	}
+}
+
+// wanted is a call that returned a reply and needs a peer packet to explain it.
+type wanted struct {
+	c              *callRec
+	what           string
+	ids            map[uint32]bool
+	admissible     func(q *peerPkt) bool
+	sameButOutside func(q *peerPkt) bool
+}
+
+// matchAll finds a maximum matching between returned replies and the peer's
+// packets (Kuhn's augmenting paths; the graphs are tiny).
+func (cs *case36) matchAll() {
+	n := len(cs.want)
+	adj := make([][]int, n)
+	for i, w := range cs.want {
+		for j, q := range cs.peerPkts {
+			if w.admissible(q) {
+				adj[i] = append(adj[i], j)
+			}
+		}
+	}
+	owner := map[int]int{} // packet index -> call index
+	var try func(i int, seen map[int]bool) bool
+	try = func(i int, seen map[int]bool) bool {
+		for _, j := range adj[i] {
+			if seen[j] {
+				continue
+			}
+			seen[j] = true
+			if o, taken := owner[j]; !taken || try(o, seen) {
+				owner[j] = i
+				return true
+			}
+		}
+		return false
+	}
+	matched := make([]bool, n)
+	for i := range cs.want {
+		matched[i] = try(i, map[int]bool{})
+	}
+	// matched[] of earlier calls stays valid: augmenting never unmatches a call
+	for i, w := range cs.want {
+		c := w.c
+		if matched[i] {
+			cs.m.Count("replies_matched:"+w.what, 1)
+			continue
+		}
+		det := map[string]any{"call": c.Name, "ok": c.OK, "call_interval": []int64{c.Start, c.End}, "log": cs.around(c.End)}
+		if w.ids != nil {
+			det["channel_ids"] = fmt.Sprint(w.ids)
+		}
+		if c.OpenErr != nil {
+			det["reason"], det["message"] = c.OpenErr.Reason, c.OpenErr.Message
+		}
+		if len(c.Data) > 0 {
+			det["data"] = string(c.Data)
+		}
+		var cand []string
+		for _, q := range cs.peerPkts {
+			if w.sameButOutside != nil && w.sameButOutside(q) {
+				cand = append(cand, fmt.Sprintf("same reply written at #%d, processed during [#%d,#%d]", q.wseq, q.rseq, q.procEnd))
+			}
+		}
+		if len(adj[i]) > 0 {
+			det["note"] = "every admissible packet is needed by another call: a reply was consumed twice"
+		}
+		det["candidates"] = cand
+		switch {
+		case w.what == "open-confirm":
+			cs.viol("open-succeeded-without-a-confirmation", det)
+		case w.what == "open-failure":
+			cs.viol("open-failure-never-sent-by-peer", det)
+		case len(cand) > 0 || w.what == "channel":
+			cs.viol("reply-delivered-to-a-call-that-was-not-waiting:"+w.what, det)
+		default:
+			cs.viol("reply-never-sent-by-peer:"+w.what, det)
+		}
 	}
 }
